@@ -68,6 +68,7 @@ type Result struct {
 	Tree       map[string]Node
 	Probes     []tskit.ProbeRec
 	Envs       []tskit.EnvRec
+	Std        []string // stdout buffers seen by the custom recstd command
 	Defers     []string // order in which defer tags run
 	Updates    map[string]string
 	Executed   int // lines executed (non-comment, non-blank, guards held)
@@ -354,13 +355,7 @@ func (m *Model) condition(cond string) bool {
 		return cond == runtime.GOARCH
 	case strings.HasPrefix(cond, "exec:"):
 		prog := cond[len("exec:"):]
-		if in(HelperNames, prog) {
-			return true
-		}
-		if strings.HasPrefix(prog, "nosuchprog") {
-			return false
-		}
-		m.unmodelled("[exec:%s]", prog)
+		return m.lookPath(prog)
 	case cond == "gc":
 		return runtime.Compiler == "gc"
 	case cond == "gccgo":
@@ -385,6 +380,70 @@ func (m *Model) condition(cond string) bool {
 		m.fail("unknown-condition")
 	}
 	return false
+}
+
+// lookPath models exec.LookPath with the script's PATH: directories below $WORK are looked up in the
+// modelled tree (regular file with an execute bit), the host's PATH holds the helper programs and
+// none of the names the harness uses for missing programs (nosuchprog*, zzprog*).
+func (m *Model) lookPath(prog string) bool {
+	if strings.Contains(prog, "/") || prog == "" {
+		m.unmodelled("[exec:%s]", prog)
+	}
+	path := m.getenv("PATH")
+	host := m.H.Path
+	rest := path
+	if host != "" && strings.HasSuffix(path, host) {
+		rest = strings.TrimSuffix(strings.TrimSuffix(path, host), ":")
+	} else if path != host {
+		// the host part was dropped or reordered
+		if strings.Contains(path, host) && host != "" {
+			m.unmodelled("PATH rearranged")
+		}
+		host = ""
+	} else {
+		rest = ""
+	}
+	for _, d := range strings.Split(rest, ":") {
+		if d == "" {
+			continue
+		}
+		rel := m.rel(d)
+		n := m.stat(path2(rel, prog))
+		if n != nil && n.Kind == "file" && n.PermKnown && n.Perm&0o111 != 0 {
+			return true
+		}
+	}
+	if host != "" {
+		if in(HelperNames, prog) {
+			return true
+		}
+		if strings.HasPrefix(prog, "nosuchprog") || strings.HasPrefix(prog, "zzprog") {
+			return false
+		}
+		m.unmodelled("[exec:%s] on the host PATH", prog)
+	}
+	return false
+}
+
+// lookPathShadow reports whether a $WORK directory prepended to PATH holds a file named like the helper.
+func (m *Model) lookPathShadow(prog string) bool {
+	rest := strings.TrimSuffix(m.getenv("PATH"), ":"+m.H.Path)
+	for _, d := range strings.Split(rest, ":") {
+		if d == "" {
+			return true
+		}
+		if n := m.stat(path2(m.rel(d), prog)); n != nil {
+			return true
+		}
+	}
+	return false
+}
+
+func path2(dir, name string) string {
+	if dir == "." {
+		return name
+	}
+	return dir + "/" + name
 }
 
 func goMinor() int {
@@ -475,6 +534,7 @@ func (m *Model) Clone() *Model {
 	c.res.FailClass = append([]string(nil), m.res.FailClass...)
 	c.res.Probes = append([]tskit.ProbeRec(nil), m.res.Probes...)
 	c.res.Envs = append([]tskit.EnvRec(nil), m.res.Envs...)
+	c.res.Std = append([]string(nil), m.res.Std...)
 	c.res.Updates = make(map[string]string, len(m.res.Updates))
 	for k, v := range m.res.Updates {
 		c.res.Updates[k] = v
@@ -985,6 +1045,8 @@ func (m *Model) custom(neg bool, name string, args []string) bool {
 		for _, a := range args {
 			m.res.Envs = append(m.res.Envs, tskit.EnvRec{Name: a, Value: m.getenv(a)})
 		}
+	case "recstd":
+		m.res.Std = append(m.res.Std, m.stdout)
 	case "failcmd":
 		m.fail("failcmd")
 	case "cemit":
@@ -1077,7 +1139,7 @@ func (m *Model) exec(neg bool, args []string) {
 	if strings.Contains(prog, "/") {
 		m.unmodelled("exec with a path")
 	}
-	if m.getenv("PATH") != m.H.Path {
+	if p := m.getenv("PATH"); p != m.H.Path && !(in(HelperNames, prog) && strings.HasSuffix(p, ":"+m.H.Path) && !m.lookPathShadow(prog)) {
 		m.unmodelled("exec after PATH was changed")
 	}
 	stdin := m.stdin
@@ -1132,7 +1194,9 @@ func (m *Model) exec(neg bool, args []string) {
 					}
 					m.fs[rel] = &Node{Kind: "file", Data: "ready\n", Perm: 0o644, PermKnown: true}
 				case strings.HasPrefix(a, "--pid="):
-					m.unmodelled("--pid files are for the isolation checks")
+					if f := strings.TrimPrefix(a, "--pid="); !strings.HasPrefix(f, "/") || strings.HasPrefix(f, m.H.WorkAbs) {
+						m.unmodelled("--pid file inside $WORK")
+					}
 				case a == "-o" && i+1 < len(sub):
 					res.Stdout += tskit.Unescape(sub[i+1])
 					i++
@@ -1144,6 +1208,21 @@ func (m *Model) exec(neg bool, args []string) {
 				}
 			}
 			res.Known = true
+		case "dumpenv":
+			var kvs []string
+			for k, v := range m.envV {
+				kvs = append(kvs, k+"="+v)
+			}
+			if _, ok := m.envV["PWD"]; ok {
+				m.unmodelled("PWD set by the script")
+			}
+			kvs = append(kvs, "PWD="+m.abs(m.cwd))
+			sort.Strings(kvs)
+			var sb strings.Builder
+			for _, kv := range kvs {
+				fmt.Fprintf(&sb, "%q\n", kv)
+			}
+			res = tskit.HelperResult{Stdout: sb.String(), Known: true}
 		case "waitfile":
 			for _, f := range sub[1:] {
 				n := m.lookup(m.rel(f))
